@@ -1228,6 +1228,26 @@ class VM:
 
         return False
 
+    def _list_from_array_like(self, value: JSValue) -> list:
+        """The argument list `apply` builds from its second argument: nothing for
+        undefined / null, the elements of an array, the indexed properties of any
+        other object up to its length; a primitive is refused."""
+        if value is UNDEFINED or value is NULL:
+            return []
+        if isinstance(value, JSArray):
+            return value._elements[:]
+        if isinstance(value, (list, tuple)):
+            return list(value)
+        if isinstance(value, JSObject):
+            length = to_number(self._get_property(value, "length"))
+            count = int(length) if length == length and length > 0 else 0
+            if count > MAX_DENSE_ARRAY_LENGTH:
+                raise JSRangeError("Invalid array length")
+            return [self._get_property(value, str(i)) for i in range(count)]
+        if isinstance(value, JSFunction) or callable(value):
+            return []  # a function is an object without indexed properties
+        raise JSTypeError("CreateListFromArrayLike called on non-object")
+
     @staticmethod
     def _is_canonical_numeric(key_str: str) -> bool:
         """Is key_str the ToString of some number (CanonicalNumericIndexString)?"""
@@ -1814,17 +1834,7 @@ class VM:
         def apply_fn(*args):
             """Call function with explicit this and array of arguments."""
             this_val = args[0] if args else UNDEFINED
-            arg_array = args[1] if len(args) > 1 and args[1] is not NULL else None
-
-            # Convert array argument to list
-            if arg_array is None:
-                apply_args = []
-            elif isinstance(arg_array, JSArray):
-                apply_args = arg_array._elements[:]
-            elif isinstance(arg_array, (list, tuple)):
-                apply_args = list(arg_array)
-            else:
-                apply_args = []
+            apply_args = vm._list_from_array_like(args[1] if len(args) > 1 else UNDEFINED)
 
             return vm._call_function_internal(func, this_val, apply_args)
 
@@ -1936,16 +1946,7 @@ class VM:
         def apply_fn(*args):
             """Call with explicit this and array of arguments."""
             this_val = args[0] if args else UNDEFINED
-            arg_array = args[1] if len(args) > 1 and args[1] is not NULL else None
-
-            if arg_array is None:
-                apply_args = []
-            elif isinstance(arg_array, JSArray):
-                apply_args = arg_array._elements[:]
-            elif isinstance(arg_array, (list, tuple)):
-                apply_args = list(arg_array)
-            else:
-                apply_args = []
+            apply_args = self._list_from_array_like(args[1] if len(args) > 1 else UNDEFINED)
 
             if isinstance(fn, JSBoundMethod):
                 return fn(this_val, *apply_args)
